@@ -199,17 +199,27 @@ Definition must_refuse (vs : list edge_view) (root : bytes) (o : op) : bool :=
            || negb (existsb (fun p => bytes_eqb (p_type p) str_nodeType && negb (bytes_eqb (p_text p) [])) pts)))
   end.
 
-Fixpoint spec_c05_steps (vs : list edge_view) (root : bytes) (steps : list step) : bool :=
+(* "leaves no trace ... and the instance keeps answering": a node-point request identical to one that was
+   accepted earlier in the history is accepted again (re-sending is harmless by C01), whatever was refused
+   in between *)
+Definition np_eqb (a b : op) : bool :=
+  match a, b with
+  | NodePts i ps, NodePts j qs => bytes_eqb i j && points_eqb ps qs
+  | _, _ => false
+  end.
+
+Fixpoint spec_c05_steps (vs : list edge_view) (root : bytes) (acc : list op) (steps : list step) : bool :=
   match steps with
   | [] => true
   | t :: steps' =>
       negb (t_reply t =? 2) &&
       (if must_refuse vs root (t_op t) then t_reply t =? 1 else true) &&
       (if t_reply t =? 0 then true
-       else views_eqb vs (t_dump t) && bytes_eqb root (t_root t) && match t_pubs t with [] => true | _ => false end) &&
-      spec_c05_steps (t_dump t) (t_root t) steps'
+       else views_eqb vs (t_dump t) && bytes_eqb root (t_root t) && match t_pubs t with [] => true | _ => false end &&
+            negb (existsb (np_eqb (t_op t)) acc)) &&
+      spec_c05_steps (t_dump t) (t_root t) (if t_reply t =? 0 then t_op t :: acc else acc) steps'
   end.
-Definition spec_c05 (c : case) : bool := spec_c05_steps (c_init c) (c_root c) (c_steps c).
+Definition spec_c05 (c : case) : bool := spec_c05_steps (c_init c) (c_root c) [] (c_steps c).
 
 (* ---------- C06 ---------- *)
 Definition spec_c06_step (t : step) : bool :=
